@@ -8,12 +8,14 @@
    A chunk is a list of pieces.  A literal piece is written as it is.  An escaped piece is a run of
    byte escapes; gettext appends the bytes to the string, which is text in the charset of the
    file, so the run denotes the text [t] those bytes decode to.  Each byte is written as a
-   named escape, 1-3 octal digits, or \x with 1-2 hexadecimal digits (either case).
+   named escape, 1-3 octal digits, or \x with ANY number >= 1 of hexadecimal digits (either case):
+   gettext's lexer (po-lex.c, control_sequence, case 'x'), like C, takes every hex digit that
+   follows and keeps the low 8 bits of the value, so \x0041 and \x41 are the byte 41, \x41BC is BC.
 
-   The family stays out of the two places where C and the tool's host language disagree:
-   - C's \x takes every following hex digit: no hex-digit character directly follows a hex escape;
-   - \8 and \9 are not produced (gettext rejects them).
-   It also stays out of the ambiguity "short octal escape followed by a digit" (the next literal
+   Consequently a literal hex-digit character cannot directly follow a hex escape in the same
+   chunk (it would be one more digit of the escape): [may_follow].  That is gettext's own rule,
+   not a limit of the family.  \8 and \9 are not produced (gettext rejects them).
+   The family stays out of the ambiguity "short octal escape followed by a digit" (the next literal
    character after an octal escape of fewer than three digits is not a decimal digit). *)
 From Coq Require Import List NArith Bool.
 Import ListNotations.
@@ -32,7 +34,7 @@ Definition c_named : list (N * N) :=
 Inductive item :=
 | INamed (e b : N)       (* backslash e, denoting byte b *)
 | IOct (d : list N)      (* backslash and octal digits *)
-| IHex (d : list N).     (* backslash x and hex digits *)
+| IHex (d : list N).     (* backslash x and hex digits, any number of them *)
 
 Definition digits_value (base : N) (val : N -> N) (d : list N) : N :=
   fold_left (fun acc c => acc * base + val c) d 0.
@@ -41,7 +43,7 @@ Definition item_byte (i : item) : N :=
   match i with
   | INamed _ b => b
   | IOct d => digits_value 8 (fun c => c - 48) d
-  | IHex d => digits_value 16 c_hexval d
+  | IHex d => digits_value 16 c_hexval d mod 256     (* every digit counts; the low 8 bits are the byte *)
   end.
 
 Definition item_text (i : item) : list N :=
@@ -55,7 +57,7 @@ Definition item_ok (i : item) : Prop :=
   match i with
   | INamed e b => In (e, b) c_named
   | IOct d => (1 <= length d <= 3)%nat /\ Forall c_octal d /\ item_byte i < 256
-  | IHex d => (1 <= length d <= 2)%nat /\ Forall c_hex d
+  | IHex d => (1 <= length d)%nat /\ Forall c_hex d
   end.
 
 (* what may follow item [i] inside the same chunk: character [c] *)
